@@ -89,5 +89,5 @@ def plan13(ctx):
     return Plan(hs,
                 assumptions=["SpecEngine contract (linear by construction; garbage outputs are fresh nondeterministic values, so any reliance on them breaks additivity)",
                              "homogeneity (scaling by a field constant) follows from C02's basis form: recovery = G*x with constant G"],
-                outside=["work size > 8", "real engines' own linearity: C15 mul/fft obligations"],
+                outside=["work size > 8", "additivity for high-rate (k<=4, r in {3,4}) and low-rate (3,4): the 3-run SAT query exceeds 1 h (their basis form is decided in C02)"],
                 trusted_base=COMMON_TRUSTED)
